@@ -17,6 +17,7 @@ import (
 	tpb "github.com/fullstorydev/grpchan/grpchantesting"
 	"github.com/fullstorydev/grpchan/httpgrpc"
 	"google.golang.org/grpc"
+	"google.golang.org/grpc/metadata"
 	"google.golang.org/protobuf/proto"
 
 	"verifharness/core"
@@ -161,6 +162,12 @@ func checkC09(e *core.Env) {
 		var ctx context.Context = context.Background()
 		if !noDeadline {
 			ctx = virtualDeadlineCtx{ctx, D}
+			if r.Intn(6) == 0 {
+				// metadata relayed from an incoming call may hold a stale grpc-timeout entry: the header sent is the
+				// one derived from this call's deadline, and only that one
+				ctx = metadata.AppendToOutgoingContext(ctx, "grpc-timeout", pick(r, "1H", "99999999S", "1n"))
+				e.Count("client_stale_timeout_metadata", 1)
+			}
 		}
 		if !stream {
 			ch.Invoke(ctx, Unary.Method(), &tpb.Message{}, new(tpb.Message), copts...)
